@@ -1007,3 +1007,31 @@ def check_combiner_lengths(ctx, rule, P):
     for fk in ("BlsSignatureCore::core_combine_signature_shares", "BlsSignatureCore::core_combine_public_key_shares"):
         n += check_len_rejections(ctx, rule, P, fk, "shares", lambda L: 2 <= L <= 255, lengths, "share count")
     ctx.ob(rule, "census", True, "%d own rejection(s) by share count inspected" % n)
+
+
+def check_conditional_select(ctx, rule, P, only=None, floor=1):
+    """`T::conditional_select(a, b, choice)` returns a for choice 0 and b for choice 1 (subtle's contract): every impl in
+    the crate builds its result from `conditional_select(a.., b.., choice)` of its fields - or from a copy of a that is
+    conditionally overwritten with b - with a and b in that order."""
+    n = 0
+    for k, f in sorted(P.fns.items()):
+        if f.impl_trait != "ConditionallySelectable" or f.name != "conditional_select" or f.from_expansion:
+            continue
+        if only is not None and not any(o in (f.impl_self_adt or f.impl_self or "") for o in only):
+            continue
+        n += 1
+        ev = evaluate(f)
+        r = strip_sites(ev.ret)
+        sels = []
+        for x in subterms(r):
+            if x.op == "call" and B.cname(x) == "ConditionallySelectable::conditional_select" and len(x.a[1]) == 3:
+                sels.append(tuple(x.a[1]))
+            if x.op == "mutcall" and B.cname(x) == "ConditionallySelectable::conditional_assign" and x.a[1] == 0 and len(x.a[2]) == 3:
+                sels.append(tuple(x.a[2]))
+        def root(t):
+            pr = projection_root(t)
+            return pr[0].a[1] if pr else None
+        bad = [(root(a), root(b)) for a, b, c in sels if not (root(a) == "a" and root(b) == "b" and B.peel(c).op == "param" and B.peel(c).a[1] == "choice")]
+        # panicking impls on mismatched variants etc. still select field-wise where they select
+        ctx.ob(rule, k, bool(sels) and not bad, "%s selects (a, b) in this order under `choice`%s" % (k, "" if sels and not bad else ": found operand roots %s" % (bad or "no selection")), where=where(f))
+    ctx.floor(rule, "ConditionallySelectable impls", n, floor)
